@@ -207,6 +207,23 @@ class Program:
                             out.append((c, fn, st, st.value))
         return out
 
+    def slot_targets(self, ci: ClassInfo, attr):
+        """Methods a bound-method attribute may hold: `self.attr = self.m` (also inside a
+        conditional expression).  Returns (list of (ClassInfo, FunctionDef), may_be_external)."""
+        out, external = [], False
+        for c, fn, st, value in self.self_assignments(ci, attr):
+            cands = [value.body, value.orelse] if isinstance(value, ast.IfExp) else [value]
+            sn = fn.args.args[0].arg
+            for v in cands:
+                if isinstance(v, ast.Attribute) and isinstance(v.value, ast.Name) and v.value.id == sn:
+                    cc, m = self.find_method(ci, v.attr)
+                    if m is not None:
+                        if (cc, m) not in out:
+                            out.append((cc, m))
+                        continue
+                external = True
+        return out, external
+
     def attrs_assigned_in(self, fn, selfname=None):
         sn = selfname or (fn.args.args[0].arg if fn.args.args else "self")
         out = set()
